@@ -3,6 +3,7 @@ import ast
 
 from ..alg import Rat
 from ..loader import shape_error, anchor_error
+from ..report import weighed
 from ..sx import Walker, State
 from ..effects import Effects
 from .. import absint
@@ -510,12 +511,138 @@ def rule_V(ctx):
     c09.rule_V(ctx, rid='C10.V', only=('reuse', 'observation modes', 'single epoch'))
 
 
+def rule_I(ctx):
+    """C10.I the two end-node distances, by interpretation: __distToNode on edge geometries (the repository's Track with its abs_curv
+    feature), points on and off the geometry, every segment, both ends: distance to the source = S[i] + |vertex i - point|, distance to
+    the target = S[last] - S[i+1] + |vertex i+1 - point|; on a segment the two add up to the length of the edge"""
+    import math
+    from .. import orders
+    f = _private(ctx, MAP, '__distToNode')
+    fn = absint.funcs(ctx, MAP, {})
+    T = absint.classref(ctx, 'tracklib.core.track.Track', fn)
+    EN = absint.classref(ctx, 'tracklib.core.obs_coords.ENUCoords', fn)
+    fn['sqrt'], fn['hypot'] = math.sqrt, math.hypot
+    run = orders.make_func(f.node, fn)
+    bad = None
+    n = 0
+    geoms = {
+        'straight edge of two vertices': [(0.0, 0.0), (10.0, 0.0)],
+        'edge of four vertices with unequal segments': [(0.0, 0.0), (3.0, 4.0), (3.0, 10.0), (11.0, 10.0)],
+        'edge with a repeated vertex': [(2.0, 1.0), (5.0, 5.0), (5.0, 5.0), (5.0, -7.0)],
+    }
+    try:
+        for gname, pts in geoms.items():
+            S = [0.0]
+            for a_, b_ in zip(pts, pts[1:]):
+                S.append(S[-1] + math.hypot(b_[0] - a_[0], b_[1] - a_[1]))
+            g = T([absint.real_obs(ctx, fn, EN(x_, y_, 0.0)) for x_, y_ in pts], 'u', 't')
+            g.call('createAnalyticalFeature', 'abs_curv', list(S))
+            for i in range(len(pts) - 1):
+                (x1, y1), (x2, y2) = pts[i], pts[i + 1]
+                for t_, off in ((0.0, 0.0), (0.25, 0.0), (1.0, 0.0), (0.5, 2.0), (0.75, -1.5)):
+                    L = math.hypot(x2 - x1, y2 - y1)
+                    ux, uy = ((x2 - x1) / L, (y2 - y1) / L) if L else (1.0, 0.0)
+                    q = (x1 + t_ * (x2 - x1) - off * uy, y1 + t_ * (y2 - y1) + off * ux)
+                    want = {0: S[i] + math.hypot(q[0] - x1, q[1] - y1), 1: S[-1] - S[i + 1] + math.hypot(q[0] - x2, q[1] - y2)}
+                    for end in (0, 1):
+                        n += 1
+                        got = run(g, EN(q[0], q[1], 0.0), i, end)
+                        if not isinstance(got, (int, float)) or isinstance(got, bool) or abs(got - want[end]) > 1e-9 * max(1.0, want[end]):
+                            bad = bad or {'edge geometry': gname, 'vertices': [list(p_) for p_ in pts], 'point': list(q), 'segment': i,
+                                          'end': 'source (0)' if end == 0 else 'target (1)', 'returned': got if isinstance(got, (int, float)) else repr(got), 'expected': want[end]}
+                    if off == 0.0 and bad is None:
+                        a0, a1 = run(g, EN(q[0], q[1], 0.0), i, 0), run(g, EN(q[0], q[1], 0.0), i, 1)
+                        if abs(a0 + a1 - S[-1]) > 1e-9 * max(1.0, S[-1]):
+                            bad = {'edge geometry': gname, 'point on segment': i, 'distance to source + distance to target': a0 + a1, 'length of the edge': S[-1]}
+            # the default end is the source
+            n += 1
+            got = run(g, EN(pts[0][0], pts[0][1], 0.0), 0)
+            if not isinstance(got, (int, float)) or abs(got) > 1e-12:
+                bad = bad or {'edge geometry': gname, 'call': '__distToNode(geometry, first vertex, 0)', 'returned': repr(got), 'expected': 0.0}
+    except orders.Unsupported as ex:
+        raise shape_error('__distToNode not interpretable: %s' % ex, f.loc())
+    except (IndexError, KeyError, TypeError, AttributeError, ValueError, ZeroDivisionError, orders.Raised) as ex:
+        bad = bad or {'exception': '%s: %s' % (type(ex).__name__, str(ex)[:200])}
+    ctx.check(bad is None, 'C10.I', f, 'the distances from a candidate to the two end nodes of its edge pair abscissa S[i] with vertex i and S[i+1] with vertex i+1 '
+              '(%d interpreted cases)' % n, witness=bad, node=f.node, key='end-distances')
+
+
+def rule_A(ctx):
+    """C10.A mapOnNetwork interpreted with a recording stand-in for __mapOnNetwork: each track of the collection (or the single track)
+    is matched once, on the network given, with the noise, transition cost and search radius given - positionally or by keyword"""
+    from .. import orders
+    inner = _private(ctx, MAP, '__mapOnNetwork')
+    outer = ctx.prog.func(MAP + '.mapOnNetwork')
+    seen = []
+
+    def recorder(*args, **kwargs):
+        env = {}
+        orders._bind_params(inner.node, [a.arg for a in inner.node.args.args], args, kwargs, env, fn, inner.name)
+        seen.append(env)
+        return None
+    fn = absint.funcs(ctx, MAP, {inner.name: recorder})
+    fn[inner.name] = recorder
+    T = absint.classref(ctx, 'tracklib.core.track.Track', fn)
+    TC = absint.classref(ctx, 'tracklib.core.track_collection.TrackCollection', fn)
+    run = orders.make_func(outer.node, fn)
+
+    class Net(orders.PyStub):
+        isa = ('Network',)
+    bad = None
+    n = 0
+    formals = [a.arg for a in outer.node.args.args]
+    if formals[:2] != ['tracks', 'network'] or not {'gps_noise', 'transition_cost', 'search_radius'} <= set(formals):
+        raise shape_error('mapOnNetwork: parameters not understood', outer.loc())
+    try:
+        for form in ('single track, keywords', 'collection of two tracks, keywords', 'single track, positional', 'collection, defaults'):
+            del seen[:]
+            net = Net()
+            tracks = [T([], 'u', 't%d' % k) for k in range(2)]
+            arg = tracks[0] if form.startswith('single') else TC(list(tracks))
+            want_tracks = tracks[:1] if form.startswith('single') else tracks
+            n += 1
+            if form.endswith('keywords'):
+                run(arg, net, gps_noise=11.0, transition_cost=22.0, search_radius=33.0)
+                want = {'obs_noise': 11.0, 'transition_cost': 22.0, 'search_radius': 33.0}
+            elif form.endswith('positional'):
+                pos = {'gps_noise': 11.0, 'transition_cost': 22.0, 'search_radius': 33.0}
+                extra = []
+                for p_ in formals[2:]:
+                    if p_ not in pos:
+                        break
+                    extra.append(pos[p_])
+                if len(extra) != 3:
+                    continue
+                run(arg, net, *extra)
+                want = {'obs_noise': 11.0, 'transition_cost': 22.0, 'search_radius': 33.0}
+            else:
+                run(arg, net)
+                dflt = dict(zip(formals[len(formals) - len(outer.node.args.defaults):], [ast.literal_eval(d_) for d_ in outer.node.args.defaults]))
+                want = {'obs_noise': dflt.get('gps_noise'), 'transition_cost': dflt.get('transition_cost'), 'search_radius': dflt.get('search_radius')}
+            got_tracks = [e_.get('track') for e_ in seen]
+            ok = len(seen) == len(want_tracks) and all(a_ is b_ for a_, b_ in zip(got_tracks, want_tracks)) and all(e_.get('network') is net for e_ in seen) and \
+                all(e_.get(k_) == v_ and type(e_.get(k_)) is type(v_) for e_ in seen for k_, v_ in want.items())
+            if not ok and bad is None:
+                bad = {'call': form, 'matching runs': len(seen), 'tracks expected': len(want_tracks),
+                       'received by __mapOnNetwork': [{k_: (v_ if isinstance(v_, (int, float, str, bool, type(None))) else type(v_).__name__) for k_, v_ in e_.items() if not k_.startswith('__')} for e_ in seen][:2],
+                       'expected': dict(want, network='the network given', track='each track given, once, in order')}
+    except orders.Unsupported as ex:
+        raise shape_error('mapOnNetwork not interpretable: %s' % ex, outer.loc())
+    except (IndexError, KeyError, TypeError, AttributeError, ValueError, ZeroDivisionError, orders.Raised) as ex:
+        bad = bad or {'exception': '%s: %s' % (type(ex).__name__, str(ex)[:200])}
+    ctx.check(bad is None, 'C10.A', outer, 'mapOnNetwork matches each track given once, on the network given, with the noise, transition cost and search radius given '
+              '(%d interpreted call forms)' % n, witness=bad, node=outer.node, key='arguments')
+
+
+
 RULES = [
     ('C10.V', rule_V, 'quick'),
     ('C10.P', rule_P, 'quick'),
     ('C10.D', rule_D, 'quick'),
-    ('C10.N', rule_N, 'quick'),
-    ('C10.W', rule_W, 'quick'),
+    ('C10.I', rule_I, 'quick'),
+    ('C10.A', rule_A, 'quick'),
+    ('C10.N', weighed('C10.N', rule_N, ('C10.I',)), 'quick'),
+    ('C10.W', weighed('C10.W', rule_W, ('C10.A',)), 'quick'),
     ('C10.F', rule_F, 'quick'),
 ]
 MIN_OBLIGATIONS = 10
